@@ -213,13 +213,15 @@ Proof. destruct b; reflexivity. Qed.
 
 (* ================================================================ *)
 Section Caps.
-Variable caps : list Z.
+(* membership in the capture table, as a predicate: [fun k => zmem k caps] for the real table, [fun _ => true] when
+   only the shape is wanted *)
+Variable caps : Z -> bool.
 
 (* the group numbers of a Capture (M, and N for a balancing group), a Ref and a BackRefCond (M) are keys of the
    capture table: what the writer's mapCapnum assumes (Extract/Drv10.v nums_okb) *)
 Definition gq (t m n : Z) : bool :=
-  if t =? T_Capture then (if n =? -1 then zmem m caps else zmem n caps && ((m =? -1) || zmem m caps))
-  else zmem m caps.
+  if t =? T_Capture then (if n =? -1 then caps m else caps n && ((m =? -1) || caps m))
+  else caps m.
 
 Definition knd (strict : bool) (x : rnode) : bool :=
   let 'RN t _ _ m n _ _ kids := x in
